@@ -34,19 +34,19 @@
      matches (DESIGN §7), so a cancelled quick phase is Rec too, after the Down block.
    * slow phase = [retry_run_cfg slow_cfg Forever] over the results of the rounds.
 
-   FINDING (reported, not papered over): the two models differ in one corner that neither
-   harness exercises. Stop while the supervisor is "about to dial" (initial state, or right
-   after an attempt ended with ErrClientClosed):
-     - Supervisor.v always runs the Down block (it reads the situation as: the dial is in
-       flight / Quick's entry check sees the cancellation). As a RetryLoop history this is
-       slow phase pre = None, quick phase pre = Some Canceled ([quick_phase_agrees], case ds = []).
-     - composing RetryLoop sequentially in the order of device.go, a cancellation that arrives
-       before the outer `for ctx.Err() == nil` or before Slow.RetryWithCtx's entry check ends the
-       supervisor WITHOUT any call of the slow func, hence without Down block
-       ([slow_entry_cancelled_no_down]). In Go both happen, depending on a window of a few
-       instructions; for Stop immediately after NewLLRPDevice the second is the likely one.
-       Supervisor.v represents only the first (its Stop is atomic). The scripts of checks/c15.py
-       never put Stop there (only in waiting states), so neither tie covers it. *)
+   THE CORNER "Stop while the supervisor is about to dial" (initial state, or right after an
+   attempt ended with ErrClientClosed; found while proving this, first reported as a difference
+   between the two models, now modelled): in Go the cancellation is noticed either
+     - by Quick.RetryWithCtx's entry check or by the dial already in flight: the quick phase
+       returns an *FError and the Down block runs -- the event [Stop] of Supervisor.v; as a
+       RetryLoop history: slow phase pre = None, quick phase pre = Some Canceled
+       ([quick_phase_agrees] with ds = [], [about_to_dial_stop_in_supervisor]); or
+     - a few instructions earlier, by the outer `for ctx.Err() == nil` or Slow.RetryWithCtx's
+       entry check: the slow func is never called, no Down block -- the event [StopAtEntry];
+       as a RetryLoop history: slow phase pre = Some Canceled, zero calls
+       ([stop_at_entry_agrees], [slow_entry_cancelled_no_down]).
+   In every other state the two events coincide ([stop_events_coincide]). The harness exercises
+   the corner with Stop right after NewLLRPDevice and accepts either of the two behaviours. *)
 From Coq Require Import ZArith NArith List Bool Arith Lia.
 From LLRP Require Retry.NextWait Retry.RetryLoop Retry.RetryLoopProofs Driver.Supervisor.
 Import ListNotations.
@@ -527,8 +527,8 @@ Proof.
     repeat split; auto.
 Qed.
 
-(* FINDING, both halves.  (1) In the supervisor model a Stop in the "about to dial" state runs the
-   Down block; as a RetryLoop history: the quick phase is entered with the context already ended
+(* The corner, both behaviours.  (1) [Stop] in the "about to dial" state runs the Down block; as a
+   RetryLoop history: the quick phase is entered with the context already ended
    (quick_phase_agrees with ds = []). *)
 Lemma about_to_dial_stop_in_supervisor : forall s force, round_start s -> in_slow s = false ->
   log (step s (Stop force)) =
@@ -537,13 +537,23 @@ Proof.
   intros s force RS SL. rewrite (round_start_inv s RS), SL.
   destruct (isUp s), force; cbn; rewrite <- ?app_assoc; reflexivity.
 Qed.
-(* (2) In RetryLoop, when the cancellation is there before Slow.RetryWithCtx is entered (or before
-   the outer loop's check), the slow func -- hence the quick phase and the Down block -- is never
-   called. Supervisor.v has no transition for this behaviour of the Go code. *)
+(* (2) When the cancellation is there before Slow.RetryWithCtx is entered (or before the outer
+   loop's check), the slow func -- hence the quick phase and the Down block -- is never called:
+   the event [StopAtEntry]. *)
 Lemma slow_entry_cancelled_no_down : forall first ts,
   let r := R.retry_run_cfg slow_cfg forever keep_errs (Some R.Canceled) first ts in
   R.runs r = 0 /\ kind_of r = KCtx.
 Proof. intros. unfold R.retry_run_cfg. cbn. auto. Qed.
+
+Lemma stop_at_entry_agrees : forall first ts s force, round_start s -> in_slow s = false ->
+  let r := R.retry_run_cfg slow_cfg forever keep_errs (Some R.Canceled) first ts in
+  let s' := step s (StopAtEntry force) in
+  R.runs r = 0 /\ kind_of r = KCtx /\
+  log s' = log s ++ [LStop] /\ stopped s' = true /\ isUp s' = isUp s /\ dials (log s') = dials (log s).
+Proof.
+  intros first ts s force RS SL. cbv zeta. rewrite (round_start_inv s RS), SL.
+  unfold R.retry_run_cfg. destruct force; cbn; hist; rewrite ?app_nil_r; repeat split; auto.
+Qed.
 
 (* ---------------------------------------------------------------- headline *)
 Lemma supervisor_retry_agrees :
